@@ -570,6 +570,13 @@ pub mod broadcast {
         pub fn recv(&mut self) -> Recv<'_, T> {
             Recv { rx: self }
         }
+        /// number of values this receiver has not seen yet (also 0 for a closed, drained channel)
+        pub fn len(&self) -> usize {
+            (self.inner.sent.get() - self.next) as usize
+        }
+        pub fn is_empty(&self) -> bool {
+            self.len() == 0
+        }
     }
     pub struct Recv<'a, T> {
         rx: &'a mut Receiver<T>,
